@@ -39,7 +39,7 @@ pub fn gen_waveform(rng: &mut Rng) -> String {
 		_ => format!("pul:{}", o64(rng.uniform(0.0, 1.0))),
 	}
 }
-fn wf_name(w: Waveform) -> &'static str {
+pub fn wf_name(w: Waveform) -> &'static str {
 	match w {
 		Waveform::Sine => "sin",
 		Waveform::Triangle => "tri",
@@ -58,7 +58,7 @@ pub fn gen_phase(rng: &mut Rng) -> f64 {
 	}
 }
 /// a fixed f64 setting of an LFO
-fn gen_fixed(rng: &mut Rng, what: u8) -> f64 {
+pub fn gen_fixed(rng: &mut Rng, what: u8) -> f64 {
 	match what {
 		// frequency
 		0 => match rng.below(10) {
@@ -85,7 +85,7 @@ fn gen_setting(rng: &mut Rng, what: u8) -> String {
 /// Reference waveforms, written from the documentation ("moves back and forth smoothly / at a
 /// constant speed / gradually in one direction then jumps / jumps between two values"), for a phase
 /// in [0, 1).  `None` = too close to a discontinuity to compare.
-fn reference_wave(w: Waveform, p: f64) -> Option<f64> {
+pub fn reference_wave(w: Waveform, p: f64) -> Option<f64> {
 	let near = |x: f64| (p - x).abs() < 1e-6 || (p - x - 1.0).abs() < 1e-6 || (p - x + 1.0).abs() < 1e-6;
 	match w {
 		Waveform::Sine => Some((TAU * p).sin()),
